@@ -615,11 +615,25 @@ func (p *impPkg) translateFunc(name string) string {
 		}
 		p.translated[name] = sig
 	}
+	if p.tg.digest && f.recv == "" {
+		digestArgNames[name] = ""
+		for _, fl := range fd.Type.Params.List {
+			for _, n := range fl.Names {
+				digestArgNames[name] += " " + lname(n.Name)
+			}
+		}
+	}
 	if p.tg.digest && f.recv != "" && !f.evRecv {
 		if len(f.fuels) != 0 || u.W || u.H || u.S || u.B || f.usesNumCPU {
 			p.die(fd, "digest method with fuel / hash parameters")
 		}
 		sig := &impSig{results: f.results}
+		digestArgNames[name] = " " + lname(f.recv)
+		for _, fl := range fd.Type.Params.List {
+			for _, n := range fl.Names {
+				digestArgNames[name] += " " + lname(n.Name)
+			}
+		}
 		for _, fl := range fd.Type.Params.List {
 			for range fl.Names {
 				sig.params = append(sig.params, p.paramType(fl.Type))
